@@ -105,8 +105,22 @@ class Config:
 
     def float_dir(self, k, env, prefix="d"):
         """float structure of argument k filled from the variables prefix+name (missing -> 0)"""
-        denv = _ZeroDefault({n[len(prefix):]: v for n, v in env.items() if n.startswith(prefix + "x%d" % k)})
-        return _build_float(self.args[k], "x%d" % k, denv)
+        return _build_float(self.args[k], "x%d" % k, PrefixEnv(env, prefix))
+
+
+class PrefixEnv:
+    """view of an environment: name -> env[prefix + name]; a missing entry is 0 for plain dicts and whatever the
+    environment's own default is (random for lazily filled environments) otherwise"""
+
+    def __init__(self, env, prefix):
+        self.env = env
+        self.prefix = prefix
+
+    def __getitem__(self, name):
+        try:
+            return self.env[self.prefix + name]
+        except KeyError:
+            return 0.0
 
 
 class _ZeroDefault(dict):
